@@ -26,6 +26,7 @@ Next == /\ MNext /\ UNCHANGED <<job, ti>>
 Sem == Parse(Jobs.jobs[job].start)
 Refines == done => LET s == Sem  m == MOutcome IN
                    \/ s.k = "fuel" \/ UnspecifiedAcceptance
+                   \/ Gen                                              \* the generated-parser flavour follows KF-C02-1/2; see GenRefines
                    \/ StaticLeaderDeviates(Jobs.jobs[job].start)      \* KF-C03-1: decided (and reported) by C03, not here
                    \/ /\ (s.k = "ok") = (m.k = "ok")
                       /\ (s.k = "ok" => s.pos = m.pos)
